@@ -421,3 +421,69 @@ pub fn run_free(threads: &[Vec<Call>], seed: u64, reps: usize) -> Vec<Vec<Out>> 
     });
     outs
 }
+
+// ------------------------------------------------------------------------------------------------------------------
+// Calls made while the calling thread is being torn down: a worker that flushes its pending work from the destructor of
+// one of ITS thread-locals. Whatever per-thread state the library keeps may already be gone by then (or not yet, depending
+// on which thread-local was registered first), and the library must still give the sequential answer.
+// ------------------------------------------------------------------------------------------------------------------
+struct AtExit(Option<Box<dyn FnOnce() + Send>>);
+impl Drop for AtExit {
+    fn drop(&mut self) {
+        if let Some(f) = self.0.take() {
+            f();
+        }
+    }
+}
+thread_local! {
+    static AT_EXIT_EARLY: RefCell<AtExit> = const { RefCell::new(AtExit(None)) };
+    static AT_EXIT_LATE: RefCell<AtExit> = const { RefCell::new(AtExit(None)) };
+}
+
+/// One caller thread runs `calls[..k]` normally and `calls[k..]` from the destructor of a thread-local of its own that
+/// was registered before (`early`) or after the thread's first library call. Returns the results in call order
+/// (None for a call whose result never arrived within the time allowed: the destructor did not run or hung).
+pub fn run_at_thread_exit(calls: Vec<Call>, k: usize, early: bool, seed: u64) -> Vec<Option<Out>> {
+    let n = calls.len();
+    let k = k.min(n);
+    let (tx, rx) = std::sync::mpsc::channel::<(usize, Out)>();
+    let h = std::thread::Builder::new().name("caller-exit".into()).stack_size(8 << 20).spawn(move || {
+        let _ = std::collections::hash_map::RandomState::new();
+        if early {
+            AT_EXIT_EARLY.with(|c| c.borrow_mut().0 = None); // registers the destructor now, before any library call
+        }
+        seams::set_entropy(Some(Xo::derive(seed, &[0xE817])));
+        let mut calls = calls;
+        let tail = calls.split_off(k);
+        for (i, c) in calls.iter().enumerate() {
+            seams::set_clock_ns(c.clock);
+            let refs: Vec<&[u8]> = c.args.iter().map(|a| a.as_slice()).collect();
+            let _ = tx.send((i, c.lib.call_routed(c.g, c.op, &refs, c.route)));
+        }
+        let tx2 = tx.clone();
+        let at_exit: Box<dyn FnOnce() + Send> = Box::new(move || {
+            for (j, c) in tail.iter().enumerate() {
+                seams::set_clock_ns(c.clock);
+                let refs: Vec<&[u8]> = c.args.iter().map(|a| a.as_slice()).collect();
+                let _ = tx2.send((k + j, c.lib.call_routed(c.g, c.op, &refs, c.route)));
+            }
+            seams::set_clock_ns(None);
+            seams::set_entropy(None);
+        });
+        if early {
+            AT_EXIT_EARLY.with(|c| c.borrow_mut().0 = Some(at_exit));
+        } else {
+            AT_EXIT_LATE.with(|c| c.borrow_mut().0 = Some(at_exit));
+        }
+    });
+    drop(h); // thread-local destructors may still be running when a join returns: the channel is the completion signal
+    let mut outs: Vec<Option<Out>> = (0..n).map(|_| None).collect();
+    let deadline = std::time::Duration::from_secs(60);
+    for _ in 0..n {
+        match rx.recv_timeout(deadline) {
+            Ok((i, o)) => outs[i] = Some(o),
+            Err(_) => break,
+        }
+    }
+    outs
+}
